@@ -90,3 +90,19 @@ func zzC20_portable_sub() {
 	zzCheckGray(img, pixels, "portable conversion of a sub-image: every luminance value is that of the pixel at the same coordinates")
 	zzReached("end")
 }
+
+// 4:4:4 at the origin with padded chroma rows (CStride 80 != YStride 64): a legal image.YCbCr that the assembly handles
+// (it takes the chroma stride separately); also with a padded luma... only the chroma padding is within what the
+// routine supports (YStride must equal the width, see the known findings)
+func zzC20_asm444_padded() {
+	img := &image.YCbCr{Y: make([]uint8, 64*64), Cb: make([]uint8, 80*64), Cr: make([]uint8, 80*64), YStride: 64, CStride: 80,
+		SubsampleRatio: image.YCbCrSubsampleRatio444, Rect: image.Rect(0, 0, 64, 64)}
+	zzPattern(img)
+	pixels := make([]float32, 64*64)
+	AsmYCbCrToGray(img, pixels)
+	zzCheckGray(img, pixels, "4:4:4 at the origin with padded chroma rows: every luminance value is within 2.0 of the portable conversion of the pixel at the same coordinates")
+	portable := make([]float32, 64*64)
+	yCbCrToGrayAlt(img, portable)
+	zzCheckGray(img, portable, "portable conversion with padded chroma rows: every luminance value is that of the pixel at the same coordinates")
+	zzReached("end")
+}
